@@ -319,7 +319,7 @@ fn resolve_leaves<'a>(e: &'a syn::Expr, contrib: &BTreeMap<String, Vec<&'a syn::
             if let Ok(elems) = m.mac.parse_body_with(syn::punctuated::Punctuated::<syn::Expr, syn::Token![,]>::parse_terminated) {
                 // leak-free: we cannot return references into a temporary; fall back to checking here
                 let all = elems.iter().all(|x| {
-                    let t = sm::tsc(x);
+                    let t = sm::tsx(x);
                     t.starts_with("set_context(")
                 });
                 if all {
@@ -590,7 +590,7 @@ pub fn paren_sensitive_flags(cx: &mut Ctx, g: &Grammar) {
         }
         let starts_paren = a.syms.iter().any(|s| matches!(&s.kind, SymKind::Term(t) if t == "("));
         if starts_paren {
-            let t = sm::tsc(e);
+            let t = sm::tsx(e);
             if t.contains("elts.into_iter().next().unwrap()") || t == "e" || t.contains("Ok(mid)") {
                 n += 1;
             }
